@@ -261,7 +261,7 @@ def scenarios(ctx):
     out = []
     n_bo = 14 if ctx.quick else 120
     for i in range(n_bo):
-        dim = rnd.choice([1, 1, 2])
+        dim = rnd.choice([1, 1, 2]) if i % 3 else 2
         bounds = [[rnd.choice([-1.0, 0.0]), rnd.choice([1.0, 2.0])] for _ in range(dim)]
         wide = rnd.random() < 0.5
         prior = [[b[0] - 1.0, b[1] + 1.0] if wide else [b[0] + 0.25, b[1] - 0.25] for b in bounds]
@@ -269,6 +269,11 @@ def scenarios(ctx):
         init = rnd.choice([4, 3, 0, dict(pre=3), dict(pre=5)])
         n_ev = (init["pre"] if isinstance(init, dict) else -(-init // bs) * bs) + bs * rnd.randint(2, 4)
         noise = rnd.choice([0, 0.1, 0.5, [0.1] * dim if dim == 1 else [0.05, 0.3]])
+        if dim == 2 and i % 3 == 0:
+            # per-parameter noise with a ZERO variance before / after a non-zero one, on clearly different bounds per dimension
+            noise = [[0, 0.5], [0.5, 0]][(i // 3) % 2]
+            bounds = [[0.0, 1.0], [-3.0, 3.0]] if (i // 3) % 2 == 0 else [[-3.0, 3.0], [0.0, 1.0]]
+            prior = [[b[0] - 1.0, b[1] + 1.0] if wide else [b[0] + 0.25, b[1] - 0.25] for b in bounds]
         base = dict(kind="bo", dim=dim, bounds=bounds, prior=prior, bs=bs, bpa=rnd.choice([1, 2]), init=init, n_evidence=n_ev,
                     upd=rnd.choice([1, 2, 10]), noise=noise, seed=rnd.randint(0, 10 ** 6), acq=rnd.choice(["lcbsc", "lcbsc", "uniform"]))
         for mp in ([1, 3] if ctx.quick else [1, 2, 3]):
